@@ -302,6 +302,7 @@ class Gen:
         self.fn_keys_with_body = set()
         self.assume = set()          # function keys whose contract is assumed (outside the rules / rejected by Verus)
         self.assume_reasons = {}
+        self.inline = {}             # function key -> names of same-file helpers without contract to inline (rule R12)
         self.macros = {}
         self.statics = set(self.specs.STATICS)
         for it in self.src.items["actor.rs"]:
@@ -350,6 +351,13 @@ class Gen:
             if t2 != t:
                 applied.append(name)
             t = t2
+        inlined = []
+        if not assumed and self.inline.get(key):
+            from . import inline as I
+            items = self.src.items[file]
+            owner = I.owner_of(items, item)
+            cg = set(re.findall(r"[<,]\s*(\w+)\s*(?=[:,>])", (owner.header_raw if owner else "") + " " + item.sig.split("(")[0]))
+            ap("R12-inline", I.rule_inline, set(self.inline[key]), I.file_fns(items), item, owner, cg, inlined)
         ap("R-spawn", rule_spawn)
         ap("R-path", R.rule_paths)
         if spec.get("record_emit"):
@@ -357,6 +365,7 @@ class Gen:
         ap("R3", R.rule_logging)
         ap("R6", R.rule_local_macros, self.macros)
         ap("R-path", R.rule_paths)
+        ap("R3", R.rule_logging)      # logging / span macros that a local macro expanded to
         ap("R6-scope", R.rule_task_local_scope)
         ap("R6-get", R.rule_task_local_get)
         ap("R-for", R.rule_for_underscore)
@@ -488,6 +497,7 @@ class Gen:
         self.report.append({
             "function": key, "file": "src/" + file,
             "rules_applied": applied,
+            "inlined_helpers": sorted(set(inlined)),
             "source_sha256": hashlib.sha256(src_text.encode()).hexdigest()[:16],
             "diff": "\n".join(difflib.unified_diff(src_text.splitlines(), out.splitlines(),
                                                    "repo:" + key, "verified:" + key, lineterm="", n=0)),
